@@ -48,6 +48,7 @@ template <class Ring, bool HASDIV> struct Run {
     typedef typename Ring::Residu_t R;
     static std::string go(const Case& c) {
         static std::unique_ptr<Ring> cur; static std::string curp;
+        if (c.op == "info") return "INFO " + IO<R>::show(Ring::minCardinality()) + " " + IO<R>::show(Ring::maxCardinality());
         if (!cur || curp != c.param) { cur.reset(new Ring(IO<R>::parse(c.param))); curp = c.param; }
         const Ring& F = *cur;
         if (is_div_op(c.op)) {
@@ -76,31 +77,47 @@ template <class Ring> struct RunZ {
 
 #define REG(name, ...) dom_table()[name] = &Run<__VA_ARGS__, true>::go
 
+// compiled in three parts (-DC15_PART=1,2,3) so that the parts build in parallel
+#ifndef C15_PART
+#define C15_PART 0
+#endif
 int main() {
     typedef __int128_t i128; typedef __uint128_t u128;
-    REG("i8_i16", Modular<int8_t, int16_t>);   REG("u8_u16", Modular<uint8_t, uint16_t>);
-    REG("i16_i16", Modular<int16_t, int16_t>); REG("i16_i32", Modular<int16_t, int32_t>);
-    REG("u16_u16", Modular<uint16_t, uint16_t>); REG("u16_u32", Modular<uint16_t, uint32_t>);
+#if C15_PART == 0 || C15_PART == 1
+    REG("i8_i8", Modular<int8_t, int8_t>);     REG("i8_u8", Modular<int8_t, uint8_t>);
+    REG("i8_i16", Modular<int8_t, int16_t>);   REG("i8_u16", Modular<int8_t, uint16_t>);
+    REG("u8_i8", Modular<uint8_t, int8_t>);    REG("u8_u8", Modular<uint8_t, uint8_t>);
+    REG("u8_i16", Modular<uint8_t, int16_t>);  REG("u8_u16", Modular<uint8_t, uint16_t>);
+    REG("i16_i16", Modular<int16_t, int16_t>); REG("i16_u16", Modular<int16_t, uint16_t>);
+    REG("i16_i32", Modular<int16_t, int32_t>); REG("i16_u32", Modular<int16_t, uint32_t>);
+    REG("u16_i16", Modular<uint16_t, int16_t>); REG("u16_u16", Modular<uint16_t, uint16_t>);
+    REG("u16_i32", Modular<uint16_t, int32_t>); REG("u16_u32", Modular<uint16_t, uint32_t>);
     REG("i32_i32", Modular<int32_t, int32_t>); REG("i32_u32", Modular<int32_t, uint32_t>);
     REG("i32_i64", Modular<int32_t, int64_t>); REG("i32_u64", Modular<int32_t, uint64_t>);
-    REG("u32_u32", Modular<uint32_t, uint32_t>); REG("u32_i64", Modular<uint32_t, int64_t>);
-    REG("u32_u64", Modular<uint32_t, uint64_t>);
+    REG("u32_i32", Modular<uint32_t, int32_t>); REG("u32_u32", Modular<uint32_t, uint32_t>);
+    REG("u32_i64", Modular<uint32_t, int64_t>); REG("u32_u64", Modular<uint32_t, uint64_t>);
+#endif
+#if C15_PART == 0 || C15_PART == 2
     REG("i64_i64", Modular<int64_t, int64_t>); REG("i64_u64", Modular<int64_t, uint64_t>);
     REG("i64_i128", Modular<int64_t, i128>);   REG("i64_u128", Modular<int64_t, u128>);
-    REG("u64_u64", Modular<uint64_t, uint64_t>); REG("u64_u128", Modular<uint64_t, u128>);
+    REG("u64_i64", Modular<uint64_t, int64_t>); REG("u64_u64", Modular<uint64_t, uint64_t>);
+    REG("u64_i128", Modular<uint64_t, i128>);  REG("u64_u128", Modular<uint64_t, u128>);
     REG("f_f", Modular<float, float>); REG("f_d", Modular<float, double>); REG("d_d", Modular<double, double>);
     REG("bi32", ModularBalanced<int32_t>); REG("bi64", ModularBalanced<int64_t>);
     REG("bf", ModularBalanced<float>); REG("bd", ModularBalanced<double>);
     REG("ef", ModularExtended<float>); REG("ed", ModularExtended<double>);
     REG("zz", Modular<Integer>);
     REG("mgi32", Montgomery<int32_t>);
+    dom_table()["zring_I"] = &RunZ<ZRing<Integer> >::go;
+    dom_table()["zring_d"] = &RunZ<ZRing<double> >::go;
+    dom_table()["zring_i64"] = &RunZ<ZRing<int64_t> >::go;
+#endif
+#if C15_PART == 0 || C15_PART == 3
     REG("ru6_6", Modular<RecInt::ruint<6>, RecInt::ruint<6> >); REG("ru6_7", Modular<RecInt::ruint<6>, RecInt::ruint<7> >);
     REG("ru7_7", Modular<RecInt::ruint<7>, RecInt::ruint<7> >); REG("ru7_8", Modular<RecInt::ruint<7>, RecInt::ruint<8> >);
     REG("ru8_8", Modular<RecInt::ruint<8>, RecInt::ruint<8> >); REG("ru8_9", Modular<RecInt::ruint<8>, RecInt::ruint<9> >);
     REG("ri7_7", Modular<RecInt::rint<7>, RecInt::rint<7> >); REG("ri7_8", Modular<RecInt::rint<7>, RecInt::rint<8> >);
     REG("mg6", Montgomery<RecInt::ruint<6> >); REG("mg7", Montgomery<RecInt::ruint<7> >); REG("mg8", Montgomery<RecInt::ruint<8> >);
-    dom_table()["zring_I"] = &RunZ<ZRing<Integer> >::go;
-    dom_table()["zring_d"] = &RunZ<ZRing<double> >::go;
-    dom_table()["zring_i64"] = &RunZ<ZRing<int64_t> >::go;
+#endif
     return main_loop();
 }
